@@ -64,6 +64,7 @@ PredNames == {"status-known", "iteration-limit", "result-shape",
               "success-all-converged", "success-returns-neigen", "success-residual",
               "success-normalised", "success-orthogonal", "success-ascending", "success-no-exception",
               "noconv-returned-roots-converged",
+              "info-describes-last-solve", "results-belong-to-last-solve",
               "promised-success", "promised-lowest"}
 
 Holds(name, B, E, m, last) ==
@@ -71,7 +72,8 @@ Holds(name, B, E, m, last) ==
       n == B.neigen
       symm == B.mode = "SYMM"
   IN CASE name = "status-known" -> E.status \in {"Success", "NoConvergence"}
-       [] name = "iteration-limit" -> m <= B.itermax /\ (m >= 1 => last.i = m - 1)
+       [] name = "iteration-limit" ->
+            m <= B.itermax /\ (m >= 1 => last.i = m - 1) /\ E.niterapi < B.itermax /\ E.niterapi >= 0
        [] name = "result-shape" -> E.shape = 1
        \* Success => all neigen roots converged at the final iteration (the solver's own report)
        [] name = "success-all-converged" -> succ => (m >= 1 /\ last.pct = 10000)
@@ -87,6 +89,15 @@ Holds(name, B, E, m, last) ==
        [] name = "noconv-returned-roots-converged" ->
             (~succ /\ E.shape = 1) =>
                \A i \in Idx(E.zero) : E.zero[i] = 0 => (ResOK(E, i) /\ E.normq[i] <= NormTol)
+       \* info() and num_iterations() describe THIS solve (its own final log message), also on an
+       \* object that has been used before: Success <=> "Davidson converged after k iterations."
+       [] name = "info-describes-last-solve" ->
+            /\ (succ <=> (E.msg = "converged" /\ E.exc = ""))
+            /\ (E.msg # "none" => E.niterapi = E.msgiter)
+       \* eigenvalues()/eigenvectors() are the ones of this solve: nothing after an exception
+       [] name = "results-belong-to-last-solve" ->
+            /\ (E.exc # "" => E.nret = 0)
+            /\ (E.exc = "" => E.nret = n)
        \* only where the statement promises it
        [] name = "promised-success" -> PromisedSuccess(B, E) => succ
        [] name = "promised-lowest" ->
